@@ -153,6 +153,34 @@ def _margin_small(res, kind, j, tol):
         return False
 
 
+def _raj_rows(res, j):
+    col = res["P_RAJ_damage_parameter"].collective
+    if "assessment_point_index" in col.index.names:
+        col = col.xs(j or 0, level="assessment_point_index")
+    return col
+
+
+def raj_case_names_differ(ra, ja, rb, jb):
+    """F21 class: the crack-opening case (1, 2, 3, 4) chosen for some hysteresis differs between the two runs.
+    The cases are selected by strict comparisons of strains that are equal up to the notch-law solver's noise
+    (the largest hysteresis of the second pass returns to the largest strain of the history)."""
+    try:
+        a, b = list(_raj_rows(ra, ja)["case_name"]), list(_raj_rows(rb, jb)["case_name"])
+    except Exception:  # noqa
+        return False
+    return a != b
+
+
+def raj_crack_closes_under_scaling(lo, hi):
+    """F17_b class: some hysteresis damages (P_RAJ > 0) in the less loaded run and has P_RAJ == 0 (crack stays closed)
+    in the more loaded one."""
+    try:
+        a, b = list(_raj_rows(lo, None)["P_RAJ"]), list(_raj_rows(hi, None)["P_RAJ"])
+    except Exception:  # noqa
+        return False
+    return len(a) == len(b) and any(x > 0 and y == 0 for x, y in zip(a, b))
+
+
 def compare_results(ra, ja, rb, jb, same_tables, info, ctx, tag):
     for kind in ("P_RAM", "P_RAJ"):
         if kind == "P_RAM":
@@ -160,13 +188,18 @@ def compare_results(ra, ja, rb, jb, same_tables, info, ctx, tag):
         else:
             tol = max(_raj_class_factor(ra), _raj_class_factor(rb)) * (1.0 + (1e-9 if same_tables else 5e-3))
         ia, ib = bool(_val(ra[kind + "_is_life_infinite"], ja)), bool(_val(rb[kind + "_is_life_infinite"], jb))
-        if ia != ib:
-            if not same_tables and (_margin_small(ra, kind, ja, 1e-3) or _margin_small(rb, kind, jb, 1e-3)):
-                ctx.tolerate("%s verdict flips within solver tolerance of the endurance value" % kind)
+        try:
+            if ia != ib:
+                if not same_tables and (_margin_small(ra, kind, ja, 1e-3) or _margin_small(rb, kind, jb, 1e-3)):
+                    ctx.tolerate("%s verdict flips within solver tolerance of the endurance value" % kind)
+                    continue
+                raise Violation("%s %s_is_life_infinite: %r vs %r (%s)" % (tag, kind, ia, ib, info), bucket="%s:%s:verdict" % (tag, kind))
+            for key in ("_lifetime_n_cycles", "_lifetime_n_times_load_sequence"):
+                _cmp_equal(tag, _val(ra[kind + key], ja), _val(rb[kind + key], jb), tol, kind + key, info)
+        except Violation:
+            if kind == "P_RAJ" and not same_tables and raj_case_names_differ(ra, ja, rb, jb) and ctx.known("F21"):
                 continue
-            raise Violation("%s %s_is_life_infinite: %r vs %r (%s)" % (tag, kind, ia, ib, info), bucket="%s:%s:verdict" % (tag, kind))
-        for key in ("_lifetime_n_cycles", "_lifetime_n_times_load_sequence"):
-            _cmp_equal(tag, _val(ra[kind + key], ja), _val(rb[kind + key], jb), tol, kind + key, info)
+            raise
 
 
 # ---------------------------------------------------------------- (i) batch independence
@@ -178,7 +211,8 @@ def _batch_cases(draw, tier):
     m = draw(st.sampled_from([37, 41, 43]))
     seq = draw(st.lists(st.integers(-m, m), min_size=2, max_size=9 if tier == "quick" else 20))
     seq.insert(draw(st.integers(0, len(seq))), m * draw(st.sampled_from([-1, 1])))
-    case["seq"] = [float(x) for x in seq]
+    seq = _off_edges([float(x) for x in seq], m)
+    case["seq"] = seq
     level = draw(st.sampled_from([0.4, 0.7, 1.0, 1.5]))
     case["unit"] = 2.0 ** math.floor(math.log2(level * case["params"]["R_m"] / case["params"]["c"] / m))
     n = draw(st.integers(2, 4))
@@ -191,16 +225,44 @@ def _batch_cases(draw, tier):
     return case
 
 
+def _off_edges(seq, m):
+    """Move samples (by whole numbers, deterministically) until no load or range sits on a class edge, see _on_class_edge."""
+    seq = list(seq)
+    for _ in range(40):
+        if not _on_class_edge(seq):
+            break
+        for i, x in enumerate(seq):
+            if abs(x) == m:
+                continue
+            trial = seq[:i] + seq[i + 1:]
+            if _on_class_edge(trial + [float(m)]) or not _on_class_edge(seq):
+                continue
+            # x takes part in an edge coincidence: nudge it towards zero
+            seq[i] = x - 1.0 if x > 0 else x + 1.0
+            break
+    return seq
+
+
 def _on_class_edge(seq):
-    """a load or a range of the sequence sits on a class edge of the 100-class tables (other than the exact top edges)"""
+    """A load or a range of the sequence sits on a class edge of the 100-class tables, where the class of a point
+    depends on the rounding of its load ratio.  Exact for every point (and therefore allowed): the loads +-max
+    themselves, the range between +max and -max, and ranges between +-max and 0."""
     m = max(abs(x) for x in seq)
-    vals = set(abs(x) for x in seq) | set(abs(a - b) for a in seq for b in seq)
-    for v in vals:
-        if v in (0.0, m, 2 * m):
-            continue
-        q = v / m * 100.0
-        if abs(q - round(q)) < 1e-6:
+
+    def on_edge(v):
+        q = abs(v) / m * 100.0
+        return v != 0.0 and abs(q - round(q)) < 1e-6
+
+    for x in seq:
+        if on_edge(x) and abs(x) != m:
             return True
+    for a in seq:
+        for b in seq:
+            if a == b or not on_edge(a - b):
+                continue
+            exact = (abs(a) == m and b == 0.0) or (abs(b) == m and a == 0.0) or (abs(a) == m and b == -a)
+            if not exact:
+                return True
     return False
 
 
@@ -312,6 +374,19 @@ def _mono_cases(draw, tier):
     return case
 
 
+def _raj_monotonicity_known(tag, lo_res, hi_res, ctx):
+    """Known findings on the monotonicity of the P_RAJ lifetime (only consulted when the relation fails)."""
+    if tag in ("roughness", "P_A"):
+        # F17: lowering the component Woehler curve (rougher surface, smaller P_A) can raise the crack-growth lifetime
+        return ctx.known("F17")
+    if tag == "scale":
+        if raj_crack_closes_under_scaling(lo_res, hi_res):
+            return ctx.known("F17_b")
+        if raj_case_names_differ(lo_res, None, hi_res, None):
+            return ctx.known("F21")
+    return False
+
+
 def _not_increasing(tag, lo_res, hi_res, info, ctx):
     """hi_res is the more severe case: its lifetime must not be larger."""
     for kind in ("P_RAM", "P_RAJ"):
@@ -319,13 +394,14 @@ def _not_increasing(tag, lo_res, hi_res, info, ctx):
         a = float(_val(lo_res[kind + "_lifetime_n_cycles"]))
         b = float(_val(hi_res[kind + "_lifetime_n_cycles"]))
         if b > a * tol:
-            if kind == "P_RAJ" and tag == "roughness" and ctx.known("F17") and min(
-                    float(_val(lo_res["P_RAJ_lifetime_n_times_load_sequence"])), float(_val(hi_res["P_RAJ_lifetime_n_times_load_sequence"]))) < 100:
+            if kind == "P_RAJ" and _raj_monotonicity_known(tag, lo_res, hi_res, ctx):
                 continue
             raise Violation("%s: %s lifetime increases from %r to %r (allowed factor %.6g) %s" % (tag, kind, a, b, tol, info),
                             bucket="mono:%s:%s" % (tag, kind))
         ia, ib = bool(_val(lo_res[kind + "_is_life_infinite"])), bool(_val(hi_res[kind + "_is_life_infinite"]))
         if ib and not ia:
+            if kind == "P_RAJ" and _raj_monotonicity_known(tag, lo_res, hi_res, ctx):
+                continue
             raise Violation("%s: %s verdict changes from finite to infinite life %s" % (tag, kind, info), bucket="mono:%s:%s:verdict" % (tag, kind))
 
 
